@@ -265,4 +265,20 @@ inline std::string joinHeader(const std::vector<std::string> &mn, size_t from, b
     return h + (query ? "?" : "");
 }
 
+// a data kind the given reader accepts
+static const RKind kScalarReaders[] = {R_I32, R_U32, R_I64, R_U64, R_F32, R_F64, R_NUM, R_BOOL, R_CHOICE, R_CHARS, R_TEXT, R_BLOCK, R_RAW};
+inline int compatibleKind(Src &s, const Reader &r) {
+    switch (r.kind) {
+        case R_I32: case R_I64: case R_F32: case R_F64: case R_ARR_I32: case R_ARR_F64: return (int) s.pick(std::vector<int>{D_DEC_INT, D_DEC_INT, D_DEC_REAL, D_NONDEC});
+        case R_U32: case R_U64: case R_ARR_U32: return (int) s.pick(std::vector<int>{D_DEC_INT, D_NONDEC});
+        case R_NUM: return (int) s.pick(std::vector<int>{D_DEC_INT, D_DEC_REAL, D_NONDEC, D_SUFFIX_KNOWN, D_SUFFIX_KNOWN, D_CHAR_SPECIAL});
+        case R_BOOL: return (int) s.pick(std::vector<int>{D_DEC_INT, D_CHAR_BOOL});
+        case R_CHOICE: return D_CHAR_CHOICE;
+        case R_TEXT: return s.coin() ? D_STR_DQ : D_STR_SQ;
+        case R_BLOCK: return D_BLOCK;
+        default: return (int) s.range(0, D_KINDS - 1);
+    }
+}
+
+
 } // namespace vf
